@@ -109,6 +109,7 @@ class Run:
             fired0 = dict(core.fired)
             t0 = CLOCK.now_us
             expect = None
+            expect_raise = None
             data = None
             if name == "read":
                 expect = core.read_mem(op["addr"], op["len"])
@@ -117,6 +118,27 @@ class Run:
             elif name == "write":
                 call = lambda: sdp.write(op["addr"], op["value"], op["count"], op.get("fmt", 32))  # noqa: E731
                 exp_hist = [("write", op["addr"], op["value"], op["count"], op.get("fmt", 32), True)]
+            elif name == "read_safe":
+                # the validating wrapper: a misaligned address is refused before anything is sent; an omitted length means
+                # one unit of the data format; the length is rounded up to whole units on request
+                unit = op["fmt"] // 8
+                call = lambda: sdp.read_safe(op["addr"], op.get("len") or None, op["fmt"], bool(op.get("align")))  # noqa: E731
+                if op["addr"] % unit:
+                    expect_raise, exp_hist = "SdpError", []
+                else:
+                    ln = op.get("len") or unit
+                    if op.get("align"):
+                        ln = -(-ln // unit) * unit
+                    expect = core.read_mem(op["addr"], ln)
+                    exp_hist = [("read", op["addr"], ln, op["fmt"])]
+            elif name == "write_safe":
+                unit = op["fmt"] // 8
+                call = lambda: sdp.write_safe(op["addr"], op["value"], op["count"], op["fmt"])  # noqa: E731
+                if op["addr"] % unit:
+                    expect_raise, exp_hist = "SdpError", []
+                else:
+                    cnt = min(-(-op["count"] // unit) * unit, 4)
+                    exp_hist = [("write", op["addr"], op["value"], cnt, op["fmt"], True)]
             elif name in ("write_file", "write_dcd", "write_csf"):
                 data = gen_bytes(op["dseed"], op["len"])
                 fn = getattr(sdp, name)
@@ -173,7 +195,7 @@ class Run:
             success = outcome[0] == "ret" and outcome[1] is not None and outcome[1] is not False
             if success and not extra:
                 # postconditions of a reported success hold with or without faults
-                if name == "read" and bytes(outcome[1]) != expect:
+                if name in ("read", "read_safe") and bytes(outcome[1]) != expect:
                     self.violation("wrong-success", "sdp:read:data", f"{where}: returned {len(outcome[1])} bytes, the device holds {len(expect)} bytes" + (" (content differs)" if len(outcome[1]) == len(expect) else ""))
                 if name == "read_status" and outcome[1] != expect:
                     self.violation("wrong-success", "sdp:read_status:value", f"{where}: returned {outcome[1]:#x}, the device sent {expect:#x}")
@@ -183,6 +205,12 @@ class Run:
                         self.violation("wrong-success", f"sdp:{name}:data", f"{where}: reported success but the device received {[(g[1], len(g[2])) for g in got]} (expected one transfer of {len(data)} bytes to {op['addr']:#x}, same content)")
                 if [h for h in hist] != exp_hist:
                     self.violation("wrong-success", f"sdp:{name}:effect", f"{where}: reported success but the device executed {hist!r}, expected {exp_hist!r}")
+            if expect_raise and not extra:
+                # refused by the host's own validation: the documented error, and the device must not have seen anything
+                if outcome[:2] != ("spsdk_exc", expect_raise) or hist:
+                    self.violation("fault-free", f"sdp:{name}:validation", f"{where}: expected {expect_raise} before anything is sent, got {outcome[:2]!r}, device executed {hist!r}")
+                self.probe("sdp_call_refused_by_validation")
+                continue
             if not faulted and not extra:
                 if outcome[0] != "ret":
                     if outcome[0] == "spsdk_exc":
@@ -338,8 +366,12 @@ def sdps_families() -> list:
 
 
 def gen_op(rng: random.Random) -> dict:
-    name = rng.choice(["read"] * 4 + ["write"] * 3 + ["write_file"] * 3 + ["write_dcd", "write_csf", "skip_dcd", "jump", "read_status"])
+    name = rng.choice(["read"] * 4 + ["write"] * 3 + ["write_file"] * 3 + ["write_dcd", "write_csf", "skip_dcd", "jump", "read_status"] + ["read_safe"] * 2 + ["write_safe"] * 2)
     addr = rng.choice([0, 0x2000_0000, 0x0090_0000, 4 * rng.randrange(1 << 28)])
+    if name == "read_safe":
+        return {"op": name, "addr": addr + rng.choice([0, 0, 0, 1, 2, 3]), "len": rng.choice([0, 0, 1, 2, 3, 4, 5, 63, 64, 65, 130, rng.randint(1, 600)]), "fmt": rng.choice([8, 16, 32]), "align": rng.random() < 0.5}
+    if name == "write_safe":
+        return {"op": name, "addr": addr + rng.choice([0, 0, 0, 1, 2, 3]), "value": rng.randrange(1 << 32), "count": rng.choice([1, 2, 3, 4, 4, 5, 8]), "fmt": rng.choice([8, 16, 32])}
     if name == "read":
         return {"op": name, "addr": addr, "len": rng.choice([1, 4, 63, 64, 65, 128, 129, 1000, rng.randint(1, 3000)]), "fmt": rng.choice([8, 16, 32])}
     if name == "write":
@@ -382,6 +414,6 @@ def gen_plan(family: str, i: int, rng: random.Random, tier: str) -> dict:
                     # SDP data reports carry no length field, so a shortened data report is as undetectable for any
                     # host as a flipped byte; only the 4-byte HAB / status words are shortened
                     f["len"] = rng.choice([0, 1, 2, 3, 4])
-                    f["pos"] = 0 if ops[k]["op"] == "read" else rng.randrange(2)
+                    f["pos"] = 0 if ops[k]["op"] in ("read", "read_safe") else rng.randrange(2)
                 plan["faults"].append(f)
     return plan
